@@ -546,14 +546,54 @@ func specCompsOK(cs []Component) bool {
 //@     invariant (bytes[4] >= 128) == c.eventCancelIndicator && bytes[4]%128 == 0x7f
 //@     decreases len(c.components) - rangeindex
 
-//@ func (d *segmentationDescriptor) Data() []byte
-//@   trusted
-//@   ensures len(result) < 1<<20
+//@ func (c *componentOffset) data() []byte
+//@   props C09 C05
+//@   requires c != nil
+//@   ensures fresh(result) && len(result) == 6 && result[0] == c.componentTag && result[1] == 0xFE|byte(c.ptsOffset>>32)&0x01 && result[2] == byte(c.ptsOffset>>24) && result[3] == byte(c.ptsOffset>>16) && result[4] == byte(c.ptsOffset>>8) && result[5] == byte(c.ptsOffset)
 //@   modifies nothing
 
-// specDescsAllOK: every entry of the descriptor list is one of the library's descriptors.
+// A component offset survives encoding and decoding (33 bits of the offset, the tag).
+func lemmaComponentOffsetRoundTrip(c *componentOffset) bool {
+	d := componentFromBytes(c.data())
+	return d.componentTag == c.componentTag && uint64(d.ptsOffset) == uint64(c.ptsOffset)%(1<<33)
+}
+
+//@ func lemmaComponentOffsetRoundTrip(c *componentOffset) bool
+//@   props C09 C08
+//@   requires c != nil
+//@   ensures result
+//@   modifies nothing
+
+// specMidOK: the multiple-UPID entries are of moderate size.
+func specMidOK(m []upidSt) bool {
+	return verifForall(0, len(m), func(k int) bool { return len(m[k].upid) < 1<<12 })
+}
+
+//@ func (d *segmentationDescriptor) Data() []byte
+//@   props C09 C05
+//@   requires d != nil && len(d.components) < 4096 && len(d.mid) < 256 && len(d.upid) < 1<<12 && specMidOK(d.mid)
+//@   ensures fresh(result) && len(result) >= 11 && len(result) < 1<<21
+//@   ensures result[0] == 0x02 && result[2] == 0x43 && result[3] == 0x55 && result[4] == 0x45 && result[5] == 0x49
+//@   modifies nothing
+//@   loop 1 (rangeindex int, componentsBytes []byte, data []byte, eventData []byte)
+//@     invariant d != nil && -1 <= rangeindex && rangeindex < len(d.components) && len(d.components) < 4096
+//@     invariant fresh(componentsBytes) && 1 <= len(componentsBytes) && len(componentsBytes) <= 1+6*(rangeindex+1)
+//@     invariant fresh(data) && len(data) == 11 && fresh(eventData) && len(eventData) == 1 && verifSeparate(data, componentsBytes) && verifSeparate(data, eventData) && verifSeparate(eventData, componentsBytes)
+//@     invariant data[0] == 0x02 && data[2] == 0x43 && data[3] == 0x55 && data[4] == 0x45 && data[5] == 0x49
+//@     decreases len(d.components) - rangeindex
+//@   loop 2 (rangeindex int, UpidData []byte, data []byte, eventData []byte)
+//@     invariant d != nil && -1 <= rangeindex && rangeindex < len(d.mid) && len(d.mid) < 256 && specMidOK(d.mid)
+//@     invariant fresh(UpidData) && 2 <= len(UpidData) && len(UpidData) <= 2+(2+(1<<12))*(rangeindex+1)
+//@     invariant fresh(data) && len(data) == 11 && fresh(eventData) && 1 <= len(eventData) && len(eventData) <= 7+6*4096 && verifSeparate(data, UpidData) && verifSeparate(data, eventData) && verifSeparate(eventData, UpidData)
+//@     invariant data[0] == 0x02 && data[2] == 0x43 && data[3] == 0x55 && data[4] == 0x45 && data[5] == 0x49
+//@     decreases len(d.mid) - rangeindex
+
+// specDescsAllOK: every entry of the descriptor list is one of the library's descriptors, of encodable size.
 func specDescsAllOK(ds []SegmentationDescriptor) bool {
-	return verifForall(0, len(ds), func(k int) bool { _, ok := ds[k].(*segmentationDescriptor); return ok && ds[k] != nil })
+	return verifForall(0, len(ds), func(k int) bool {
+		p, ok := ds[k].(*segmentationDescriptor)
+		return ok && ds[k] != nil && p != nil && len(p.components) < 4096 && len(p.mid) < 256 && len(p.upid) < 1<<12 && specMidOK(p.mid)
+	})
 }
 
 // specCmdEncodable: a splice_insert's components are the library's and fewer than 4096.
@@ -578,7 +618,7 @@ func specSecLen(cmdLen int, descLoopLen int, stuffing int) int { return 13 + cmd
 //@   ensures len(s.data) == len(result) && (len(result) > 0 ==> &s.data[0] == &result[0])
 //@   modifies *s
 //@   loop 1 (rangeindex int, descriptorBytes []byte)
-//@     invariant s != nil && -1 <= rangeindex && rangeindex < len(s.descriptors) && fresh(descriptorBytes) && len(descriptorBytes) >= 2 && len(descriptorBytes) <= 2+len(s.otherDescriptorBytes)+(rangeindex+1)*(1<<20)
+//@     invariant s != nil && -1 <= rangeindex && rangeindex < len(s.descriptors) && fresh(descriptorBytes) && len(descriptorBytes) >= 2 && len(descriptorBytes) <= 2+len(s.otherDescriptorBytes)+(rangeindex+1)*(1<<21)
 //@     invariant specDescsAllOK(s.descriptors) && s.commandInfo == old(s.commandInfo)
 //@     invariant rangeindex+1 >= len(s.descriptors) || s.descriptors[rangeindex+1] != nil
 //@     decreases len(s.descriptors) - rangeindex
